@@ -27,6 +27,8 @@ type TermPool struct {
 	vars  []*Term // declaration order
 	funcs map[string]*FuncDef
 	fseq  []*FuncDef
+
+	specCache map[string]*Term
 }
 
 type FuncDef struct {
@@ -37,7 +39,7 @@ type FuncDef struct {
 }
 
 func NewPool() *TermPool {
-	return &TermPool{tab: map[string]*Term{}, funcs: map[string]*FuncDef{}}
+	return &TermPool{tab: map[string]*Term{}, funcs: map[string]*FuncDef{}, specCache: map[string]*Term{}}
 }
 
 func mask(w int) uint64 {
@@ -233,6 +235,39 @@ func (p *TermPool) Cmp(op string, a, b *Term) *Term {
 			return p.Bool(sx <= sy)
 		}
 	}
+	// range facts: zero-extended values are small
+	if hiA, ok := p.ubound(a); ok && b.IsConst() {
+		switch op {
+		case "bvult":
+			if hiA < b.val {
+				return p.Bool(true)
+			}
+		case "bvule":
+			if hiA <= b.val {
+				return p.Bool(true)
+			}
+		case "=":
+			if hiA < b.val {
+				return p.Bool(false)
+			}
+		}
+	}
+	if hiB, ok := p.ubound(b); ok && a.IsConst() {
+		switch op {
+		case "bvult":
+			if a.val >= hiB {
+				return p.Bool(false)
+			}
+		case "bvule":
+			if a.val > hiB {
+				return p.Bool(false)
+			}
+		case "=":
+			if a.val > hiB {
+				return p.Bool(false)
+			}
+		}
+	}
 	if a == b {
 		switch op {
 		case "=", "bvule", "bvsle":
@@ -254,6 +289,27 @@ func (p *TermPool) Cmp(op string, a, b *Term) *Term {
 		}
 	}
 	return p.intern(&Term{op: op, args: []*Term{a, b}})
+}
+
+// ubound returns an unsigned upper bound of t that is tighter than the type's, if one is evident.
+func (p *TermPool) ubound(t *Term) (uint64, bool) {
+	switch t.op {
+	case "zext":
+		if t.args[0].w < 64 {
+			return mask(t.args[0].w), true
+		}
+	case "bvand":
+		for _, a := range t.args {
+			if a.IsConst() {
+				return a.val, true
+			}
+		}
+	case "bvlshr":
+		if t.args[1].IsConst() && t.args[1].val < uint64(t.w) && t.w <= 64 {
+			return mask(t.w) >> t.args[1].val, true
+		}
+	}
+	return 0, false
 }
 
 func (p *TermPool) eqIteConst(it, k *Term) *Term {
@@ -665,4 +721,63 @@ func Vars(ts ...*Term) []*Term {
 	}
 	sort.Slice(out, func(i, j int) bool { return out[i].name < out[j].name })
 	return out
+}
+
+// Subst rebuilds t with variables replaced (by name), re-running the simplifying constructors.
+func (p *TermPool) Subst(t *Term, env map[string]*Term, memo map[int]*Term) *Term {
+	if r, ok := memo[t.id]; ok {
+		return r
+	}
+	var r *Term
+	switch t.op {
+	case "const", "true", "false":
+		r = t
+	case "var":
+		if x, ok := env[t.name]; ok {
+			r = x
+		} else {
+			r = t
+		}
+	default:
+		args := make([]*Term, len(t.args))
+		same := true
+		for i, a := range t.args {
+			args[i] = p.Subst(a, env, memo)
+			if args[i] != a {
+				same = false
+			}
+		}
+		if same {
+			r = t
+			break
+		}
+		switch t.op {
+		case "not":
+			r = p.Not(args[0])
+		case "and":
+			r = p.And(args[0], args[1])
+		case "or":
+			r = p.Or(args[0], args[1])
+		case "ite":
+			r = p.Ite(args[0], args[1], args[2])
+		case "=", "bvult", "bvule", "bvslt", "bvsle":
+			r = p.Cmp(t.op, args[0], args[1])
+		case "bvnot":
+			r = p.BvNot(args[0])
+		case "bvneg":
+			r = p.BvNeg(args[0])
+		case "extract":
+			r = p.Extract(int(t.val>>8), int(t.val&0xff), args[0])
+		case "zext":
+			r = p.ZExt(args[0], t.w)
+		case "sext":
+			r = p.SExt(args[0], t.w)
+		case "app":
+			r = p.intern(&Term{op: "app", w: t.w, name: t.name, args: args})
+		default:
+			r = p.Bin(t.op, args[0], args[1])
+		}
+	}
+	memo[t.id] = r
+	return r
 }
